@@ -306,6 +306,10 @@ func checkC11(p *core.Program, r *core.Report) {
 		visit(fn, 2)
 	}
 	r.Floor(R6, 1)
+
+	const R7 = "C11.R7 transport-end-is-reported"
+	r.Rule(R7, "every way the transport can end reaches the SHIP layer: read errors (peer close frames of any code included) and write errors are reported, the SHIP layer reacts with CloseConnection (shared with C13.R2/R4); and the local close path never calls back upward (a ReportConnectionError from inside CloseDataConnection re-enters the close-once and the end is never reported)")
+	importRules(p, r, "C13", map[string]string{"C13.R2 error-told-or-not": R7, "C13.R4 ship-reaction": R7, "C13.R7 no-report-from-local-close": R7}, nil)
 	_ = types.Typ
 }
 
@@ -491,7 +495,6 @@ func checkShipCloseOnce(p *core.Program, r *core.Report, R1, R2 string) bool {
 
 	return true
 }
-
 
 // derivesThroughHelper: root is a value inside the (module-local) static callee of c, and some non-constant
 // idx-th return value of that callee derives from it.
